@@ -177,8 +177,8 @@ func (r *Run) Assume(s ...string) {
 	r.assumptions = append(r.assumptions, s...)
 	r.mu.Unlock()
 }
-func (r *Run) Exhaustive()            { r.exhaustive = true }
-func (r *Run) Extra(k string, v any)  { r.mu.Lock(); r.extra[k] = v; r.mu.Unlock() }
+func (r *Run) Exhaustive()             { r.exhaustive = true }
+func (r *Run) Extra(k string, v any)   { r.mu.Lock(); r.extra[k] = v; r.mu.Unlock() }
 func (r *Run) Inconclusive(why string) { r.mu.Lock(); r.inconcl[why]++; r.mu.Unlock() }
 
 // Violations returns the number of unlisted violations so far.
